@@ -9,7 +9,8 @@
 //   rv v                remove_star(Vertex_handle v)
 //   re a b              remove_star(a,b)
 //   rs v..              remove_star(Simplex{v..})     (dispatches on the dimension)
-//   ce a b              contract_edge(a,b)
+//   ce a b              contract_edge(a,b) of an edge
+//   ci a b              contract_edge(a,b) of two non-adjacent vertices (identification)
 //   mk n ; f1 ; f2 ..   make_complex_from_top_faces (constructor from a simplex list, blockers computed by the tries)
 //   cp                  replace the complex by a copy of itself (copy constructor), state must be unchanged
 // answer: "nv=<num_vertices> ne=<num_edges> nb=<num_blockers> V=<active vertices> E=<edges> B=<blocker_range, sorted>
@@ -122,7 +123,7 @@ int main() {
         else if (op == "rv") c->remove_star(Vertex_handle(a.at(0)));
         else if (op == "re") c->remove_star(Vertex_handle(a.at(0)), Vertex_handle(a.at(1)));
         else if (op == "rs") c->remove_star(mk(a));
-        else if (op == "ce") c->contract_edge(Vertex_handle(a.at(0)), Vertex_handle(a.at(1)));
+        else if (op == "ce" || op == "ci") c->contract_edge(Vertex_handle(a.at(0)), Vertex_handle(a.at(1)));
         else if (op == "cp") { std::unique_ptr<Complex> d(new Complex(*c)); bool eq = (*d == *c); c = std::move(d); if (!eq) ans = "COPY-NOT-EQUAL "; }
         else { vh::emit("BADOP"); continue; }
       }
